@@ -152,6 +152,12 @@ func (f *multiFam) play(l *Line, out *rec) error {
 			audit := zerolog.New(io.Discard)
 			ws = append(ws, audit)
 		}
+		if crc32.ChecksumIEEE([]byte(l.ID))%7 == 4 {
+			// one history in seven: a syslog writer with the CEE cookie as the FIRST destination, again outside the modelled list.
+			// It hands syslog the cookie plus the event and accounts for the event: nothing it does may look like a short write,
+			// and a failure of a later destination is still the one that is reported
+			ws = append([]io.Writer{zerolog.SyslogCEEWriter(&mockSyslog{})}, ws...)
+		}
 		logger = zerolog.New(zerolog.MultiLevelWriter(ws...))
 	} else {
 		logger = zerolog.New(ws[0])
